@@ -29,6 +29,7 @@ VARIABLES doc
 B == INSTANCE Blocks
 I == INSTANCE Inline WITH MaxLen <- 0, AlphabetName <- "none", str <- doc
 L == INSTANCE LineDefs
+H == INSTANCE Html WITH File <- "none", tid <- doc, verdict <- doc      \* the WHATWG tokenizer subset and the C07 vocabulary checks
 
 SP == 32  TAB == 9  LF == 10  CR == 13  BS == 92  AMP == 38  SEMI == 59  HASHC == 35  LTC == 60  GTC == 62  DQ == 34  SQ == 39  TICK == 96
 
@@ -294,6 +295,19 @@ FinalNewlineHtmlLemma ==
   (doc # <<>> /\ doc[Len(doc)][Len(doc[Len(doc)])] \notin {LF, CR}) =>
      LET a == HtmlOf(Src)  b == HtmlOf(Src \o <<LF>>) IN
      Len(a) = Len(b) /\ \A i \in 1..Len(a) : StripTail(a[i]) = StripTail(b[i])
+\* C07 at model level: the HTML of a document without raw HTML is well-formed over the fixed vocabulary, every attribute value is
+\* quoted and escaped, every ampersand begins a character reference - for the MODEL's mapping (C10 binds the code to the mapping)
+RECURSIVE HasRawInline(_), HasRaw(_, _, _)
+HasRawInline(items) == \E i \in 1..Len(items) : items[i].k = "html" \/ HasRawInline(items[i].kids)
+HasRaw(ns, src, defs) == \E i \in 1..Len(ns) :
+     \/ ns[i].k = "html"
+     \/ (ns[i].k \in {"para", "atx", "setext"} /\ HasRawInline(LeafItems(ns[i], src, defs)))
+     \/ HasRaw(ns[i].kids, src, defs)
+WellFormedHtmlLemma ==
+  doc # <<>> =>
+     LET roots == B!ParseDoc(Src)
+         defs == DefsOf(roots)
+     IN \A r \in 1..Len(roots) : HasRaw(<<roots[r]>>, Src, defs) \/ H!Verdict(BlockHtml(roots[r], FALSE, Src, defs)) = "ok"
 \* C16 on HTML: a root block parsed alone renders as it does in the document, when the document defines no references
 ReparseHtmlLemma ==
   (doc # <<>> /\ DefsOf(B!ParseDoc(Src)) = <<>>) =>
